@@ -6,12 +6,13 @@ import TraitsVerif.Lemmas.LegacyStep
 namespace TraitsVerif.Model.Legacy
 open List
 
-theorem Change.reach_quiet {h h' : Heap} {o : Nat} {a : Attr} (hc : Change h h' o a [] [])
-    (ht : TreeShaped h) {L : List Link} : ∀ m x, x ∈ reach h' L m ↔ x ∈ reach h L m := by
+theorem reach_of_same_targets {h h' : Heap} (ht : TreeShaped h)
+    (hsame : ∀ p a' c, c ∈ targets h' a' p ↔ c ∈ targets h a' p) {L : List Link} :
+    ∀ m x, x ∈ reach h' L m ↔ x ∈ reach h L m := by
   intro m x
   apply descFrom_congr ht
   intro p a' c _
-  rw [hc.mem_targets ht]; simp
+  exact hsame p a' c
 
 theorem getElem?_length_none {α} (L : List α) : L[L.length]? = none := by simp
 
@@ -20,7 +21,8 @@ satisfying the invariant. -/
 theorem dispatch_change {N : Name} {st : St} (hinv : Inv N st) {h' : Heap} {o : Nat} {a : Attr}
     {t : Trait} {sc : List Act}
     (htr : t = .link a ∨ (t = .items a ∧ isContainer a = true))
-    (hc : Change st.h h' o a (scUnregs sc) (scRegs sc)) :
+    (hc : Change st.h h' o a (scUnregs sc) (scRegs sc))
+    (hshape : (∀ c ∈ scRegs sc, st.h.next ≤ c) ∨ sc = unregAll (scUnregs sc) ++ regAll (scRegs sc)) :
     Inv N { st with h := h', s := (dispatch h' N o t sc st.s).1 } ∧
     ((st.registered = true ∧ Reports N st.h o t) → (dispatch h' N o t sc st.s).2 = [(o, t)]) ∧
     (¬(st.registered = true ∧ Reports N st.h o t) → (dispatch h' N o t sc st.s).2 = []) := by
@@ -97,18 +99,64 @@ theorem dispatch_change {N : Name} {st : St} (hinv : Inv N st) {h' : Heap} {o : 
       have hcr : ∀ c ∈ scUnregs sc, c ∈ reach st.h N.links (k + 1) := by
         intro c hcm
         exact mem_reach_succ.mpr ⟨l, o, hl, hok, by rw [hla]; exact hc.olds_sub c hcm⟩
-      obtain ⟨hg', hact'⟩ := runScript_spec ht' N (k + 1) (by omega) sc st.s hinv.good
-        (by
-          intro c hcm j x hx
-          have hx' := (hc.descFrom_old ht (hc.olds_sub c hcm)).mp hx
-          exact (hinv.act _ _).mpr ⟨hr, descFrom_sub_reach (hcr c hcm) hx'⟩)
-        (by
-          intro c hcm
-          refine ⟨fun m hm => ?_, fun a' => hc.news_leaf ht hcm a'⟩
-          have := reach_lt_next ht ((hinv.act _ _).mp hm).2
-          have := (hc.news_fresh c hcm).1
-          omega)
-        hc.olds_nodup hc.news_nodup
+      have hUnd : ∀ c ∈ scUnregs sc, ∀ j x, x ∈ descFrom h' N.links (k + 1) c j →
+          x ∈ st.s.active (k + 1 + j) := by
+        intro c hcm j x hx
+        have hx' := (hc.descFrom_old ht (hc.olds_sub c hcm)).mp hx
+        exact (hinv.act _ _).mpr ⟨hr, descFrom_sub_reach (hcr c hcm) hx'⟩
+      have hnotact : ∀ c, st.h.next ≤ c → ∀ m, c ∉ st.s.active m := by
+        intro c hcf m hm
+        have := reach_lt_next ht ((hinv.act _ _).mp hm).2
+        omega
+      -- the effect of the handler's script on the `active` tables
+      have hscript : Good N (runScript h' N.htype N.final (k + 1) (N.links.drop (k + 1)) sc st.s) ∧
+          ∀ m x, x ∈ (runScript h' N.htype N.final (k + 1) (N.links.drop (k + 1)) sc st.s).active m ↔
+            (x ∈ st.s.active m ∧
+              ¬(k + 1 ≤ m ∧ ∃ c ∈ scUnregs sc, x ∈ descFrom h' N.links (k + 1) c (m - (k + 1)))) ∨
+            (k + 1 ≤ m ∧ ∃ c ∈ scRegs sc, x ∈ descFrom h' N.links (k + 1) c (m - (k + 1))) := by
+        rcases hshape with hfresh | hphase
+        · -- only fresh leaves are registered
+          obtain ⟨hg', hact'⟩ := runScript_spec ht' N (k + 1) (by omega) sc st.s hinv.good hUnd
+            (fun c hcm => ⟨hnotact c (hfresh c hcm), fun a' => hc.fresh_leaf ht (hfresh c hcm) a'⟩)
+            hc.olds_nodup hc.news_nodup
+          refine ⟨hg', ?_⟩
+          intro m x
+          rw [hact']
+          have hleaf : ∀ c ∈ scRegs sc, ∀ j, x ∈ descFrom h' N.links (k + 1) c j ↔ j = 0 ∧ x = c :=
+            fun c hcm j => descFrom_leaf (fun a' => hc.fresh_leaf ht (hfresh c hcm) a')
+          constructor
+          · rintro (h1 | ⟨rfl, h2⟩)
+            · exact Or.inl h1
+            · exact Or.inr ⟨Nat.le_refl _, x, h2, (hleaf x h2 _).mpr ⟨by omega, rfl⟩⟩
+          · rintro (h1 | ⟨hm, c, hcm, hx⟩)
+            · exact Or.inl h1
+            · obtain ⟨h0, rfl⟩ := (hleaf c hcm _).mp hx
+              exact Or.inr ⟨by omega, hcm⟩
+        · -- everything removed is unregistered first, then everything added is registered
+          rw [hphase, runScript_append]
+          have hu : scUnregs (unregAll (scUnregs sc)) = scUnregs sc := by simp
+          have hrn : scRegs (unregAll (scUnregs sc)) = [] := by simp
+          obtain ⟨hg1, hact1⟩ := runScript_spec ht' N (k + 1) (by omega) (unregAll (scUnregs sc)) st.s
+            hinv.good (by rw [hu]; exact hUnd) (by rw [hrn]; simp) (by rw [hu]; exact hc.olds_nodup)
+            (by rw [hrn]; simp)
+          rw [hu, hrn] at hact1
+          obtain ⟨hg2, hact2⟩ := registerMany_spec ht' N (k + 1) (by omega) o a (scRegs sc) _
+            (fun c hcm => (hc.mem c).mpr (Or.inr hcm)) hc.news_nodup hg1 (by
+              intro c hcm j x hx m hm
+              rcases (hact1 m x).mp hm with ⟨h1, h2⟩ | ⟨_, h3⟩
+              · rcases hc.news_ok c hcm with hf | hcar
+                · obtain ⟨_, rfl⟩ := (descFrom_leaf (fun a' => hc.fresh_leaf ht hf.1 a')).mp hx
+                  exact hnotact x hf.1 m h1
+                · have hx' := (hc.descFrom_old ht (hc.olds_sub c hcar)).mp hx
+                  have hxr := descFrom_sub_reach (hcr c hcar) hx'
+                  have hm' : m = k + 1 + j := reach_unique_depth ht ((hinv.act _ _).mp h1).2 hxr
+                  exact h2 ⟨by omega, c, hcar, by rw [hm', show k + 1 + j - (k + 1) = j by omega]; exact hx⟩
+              · cases h3)
+          refine ⟨hg2, ?_⟩
+          intro m x
+          rw [hact2, hact1]
+          simp
+      obtain ⟨hg', hact'⟩ := hscript
       refine ⟨⟨ht', by rw [hd1]; exact hg', ?_⟩, ?_, ?_⟩
       · intro m x
         show x ∈ (dispatch h' N o t sc st.s).1.active m ↔ _
@@ -209,7 +257,7 @@ theorem step_mutate {N : Name} {st : St} (hinv : Inv N st) {op : Op} {m : Mut}
     (¬(m.fires = true ∧ st.registered = true ∧ Reports N st.h m.o m.trait) →
         (step N st op).2.2 = []) := by
   rw [step_of_mutate hm]
-  rcases mutate_spec hinv.tree hm with ⟨f, ho, hh, htr, hs, hf⟩ | ⟨a, htr, hc, hquiet⟩
+  rcases mutate_spec hinv.tree hm with ⟨f, ho, hh, htr, hs, hf⟩ | ⟨a, htr, hc, hquiet, hshape⟩
   · obtain ⟨p1, p2, p3⟩ := dispatch_probe hinv m.o f
     rw [if_pos hf, hh, htr, hs]
     refine ⟨?_, fun ⟨_, h2⟩ => p2 h2, fun hn => p3 (fun h2 => hn ⟨hf, h2⟩)⟩
@@ -217,18 +265,16 @@ theorem step_mutate {N : Name} {st : St} (hinv : Inv N st) {op : Op} {m : Mut}
     rw [p1]
     exact hinv
   · by_cases hf : m.fires = true
-    · obtain ⟨c1, c2, c3⟩ := dispatch_change hinv htr hc
+    · obtain ⟨c1, c2, c3⟩ := dispatch_change hinv htr hc hshape
       rw [if_pos hf]
       exact ⟨c1, fun ⟨_, h2⟩ => c2 h2, fun hn => c3 (fun h2 => hn ⟨hf, h2⟩)⟩
     · have hf' : m.fires = false := by simpa using hf
-      obtain ⟨e1, e2⟩ := hquiet hf'
-      rw [e1, e2] at hc
       rw [if_neg hf]
       refine ⟨⟨hc.tree hinv.tree, hinv.good, ?_⟩, fun ⟨h1, _⟩ => (hf h1).elim, fun _ => rfl⟩
       intro k x
       show x ∈ st.s.active k ↔ _
       rw [hinv.act]
-      exact and_congr_right (fun _ => (hc.reach_quiet hinv.tree k x).symm)
+      exact and_congr_right (fun _ => (reach_of_same_targets hinv.tree (hquiet hf') k x).symm)
 
 /-- Registration and removal. -/
 theorem step_reg {N : Name} {st : St} (hinv : Inv N st) :
